@@ -196,7 +196,7 @@ class _Scope(object):
         return False
 
 
-def concretize(val, model, max_len=48):
+def concretize(val, model, max_len=600):
     """symbolic value -> concrete python value under a model (for replay)"""
     def ev(e):
         r = model.eval(e, model_completion=True)
